@@ -1,13 +1,13 @@
 package props
 
 import (
-	"sync"
 	"fmt"
 	"math/rand"
 	"net/url"
 	"reflect"
 	"sort"
 	"strings"
+	"sync"
 
 	"gitee.com/xuesongtao/protoc-go-valid/valid"
 	"vmon/internal/clause"
